@@ -28,6 +28,7 @@ BUDGET = {
     'thorough': {'enum': [4, 5], 'hyp': 60000, 'shards': 16},
 }
 TERMINALS = ['value', 'exception', 'cancel']
+CT_FNS = ['value', 'raise', 'gate-value', 'gate-raise', 'raise-cancelled', 'gate-raise-cancelled', 'raise-invalid', 'gate-raise-invalid']
 ADAPTERS = ['unwrap', 'plum2kiwi', 'rpc']
 
 
@@ -44,13 +45,14 @@ def enumerate_cases(tier, scope):
                 for order in orders:
                     for drain in ('each', 'end'):
                         yield {'kind': 'chain', 'adapter': adapter, 'depth': depth, 'terminal': terminal, 'order': list(order), 'drain': drain}
-    for fn in ('value', 'raise', 'gate-value', 'gate-raise'):
+    for fn in CT_FNS:
         yield {'kind': 'create_task', 'fn': fn}
         yield {'kind': 'create_task', 'fn': fn, 'thread': True}
     for what in ('rpc', 'broadcast', 'task'):
         yield {'kind': 'comm_thread', 'what': what}
     for fn in ('value', 'raise'):
         yield {'kind': 'rpc_plain', 'fn': fn}
+        yield {'kind': 'rpc_plain', 'fn': fn, 'thread': True}
     ops = ['run', 'cancel', 'run']
     for n in range(1, 4):
         for seq in itertools.product(['run', 'cancel'], repeat=n):
@@ -74,7 +76,9 @@ def _cases(draw, tier):
         }
     if kind == 'action':
         return {'kind': 'action', 'fn': draw(st.sampled_from(['value', 'raise'])), 'ops': draw(st.lists(st.sampled_from(['run', 'cancel']), min_size=1, max_size=5))}
-    return {'kind': 'create_task', 'fn': draw(st.sampled_from(['value', 'raise', 'gate-value', 'gate-raise'])), 'thread': draw(st.booleans())}
+    if draw(st.integers(0, 3)) == 0:
+        return {'kind': 'rpc_plain', 'fn': draw(st.sampled_from(['value', 'raise'])), 'thread': draw(st.booleans())}
+    return {'kind': 'create_task', 'fn': draw(st.sampled_from(CT_FNS)), 'thread': draw(st.booleans())}
 
 
 def strategy(tier):
@@ -178,11 +182,19 @@ def _run_create_task(case, v):
             gate = loop.create_future()
             calls = []
 
+            if case['fn'].endswith('raise-cancelled'):
+                # exceptions of the communicator-side future family are ordinary outcomes of a coroutine as well
+                error = kiwipy.CancelledError('a kiwi future somebody cancelled')
+            elif case['fn'].endswith('raise-invalid'):
+                import concurrent.futures
+
+                error = concurrent.futures.InvalidStateError('a reply resolved twice')
+
             async def coro():
                 calls.append(1)
                 if case['fn'].startswith('gate'):
                     await gate
-                if case['fn'].endswith('raise'):
+                if 'raise' in case['fn']:
                     raise error
                 return value
 
@@ -209,9 +221,9 @@ def _run_create_task(case, v):
                 gate.set_result(None)
             loop.drain()
         got = _state(fut)
-        if case['fn'].endswith('raise'):
+        if 'raise' in case['fn']:
             if got[0] != 'exception' or got[1] is not error:
-                v('wrong-outcome', f'create_task: expected the coroutine exception, got {got}')
+                v('wrong-outcome', f'create_task: expected the coroutine exception {error!r}, got {got}')
         elif got[0] != 'result' or got[1] is not value:
             v('wrong-outcome', f'create_task: expected the coroutine result, got {got[0]}')
         if len(calls) != 1:
@@ -300,7 +312,20 @@ def _run_rpc_plain(case, v):
                     raise error
                 return value
 
-            reply = proc._schedule_rpc(handler)
+            if case.get('thread'):
+                # a bare communicator delivers on its own thread: the request must wake the (idle) loop
+                import threading
+
+                box = {}
+                before = loop.wakeups
+                worker = threading.Thread(target=lambda: box.setdefault('reply', proc._schedule_rpc(handler)))
+                worker.start()
+                worker.join()
+                reply = box['reply']
+                if loop.wakeups <= before:
+                    v('loop-not-woken', '_schedule_rpc() called from a communicator thread did not wake the event loop: an idle loop would neither act nor reply')
+            else:
+                reply = proc._schedule_rpc(handler)
         loop.drain()
         got = _state(reply)
         if case['fn'] == 'raise':
@@ -396,8 +421,8 @@ def execute(case):
         classes = ['comm_thread:' + case['what']]
     elif kind == 'rpc_plain':
         _run_rpc_plain(case, v)
-        nontrivial = case['fn'] != 'value'
-        classes = ['rpc_plain:' + case['fn']]
+        nontrivial = case['fn'] != 'value' or bool(case.get('thread'))
+        classes = ['rpc_plain:' + case['fn'] + (':thread' if case.get('thread') else '')]
     else:
         _run_action(case, v)
         nontrivial = len(case['ops']) >= 2
